@@ -163,3 +163,25 @@ class Report:
               f"({wall}s; " + ", ".join(f"{k}={v}" for k, v in self.cov.items()
                                         if isinstance(v, (int, bool))) + ")")
         return status
+
+
+def c18_relabel(obj, findings, replay_fn):
+    """C18 demands that everything after a refused call is as if the call had not been made.
+    When a behaviour with a refused call in mid-history yields a complaint owned by another
+    property, replay the behaviour without the refused calls: if the complaint disappears the
+    refused call caused it, and it is a C18 finding; otherwise it is left to its owner."""
+    h = obj.get("h") or []
+    if not any(e.get("a") == "reject" for e in h[:-1]):
+        return findings
+    others = [f for f in findings if f[0] not in ("C18", "mirror", "machinery")]
+    if not others:
+        return findings
+    stripped = dict(obj, h=[e for e in h if e.get("a") != "reject"])
+    base = {(f[0], f[1]) for f in replay_fn(stripped)}
+    out = []
+    for f in findings:
+        if f in others and (f[0], f[1]) not in base:
+            out.append(("C18", "results-after-refused-call-differ:" + f[1], f[2]))
+        else:
+            out.append(f)
+    return out
